@@ -15,6 +15,14 @@ func isFld(t *Term, name string) bool {
 	return t != nil && (t.Op == "fld" || (t.Op == "init" && t.Args[0].Op == "fa")) && (t.Name == name || (t.Op == "init" && t.Args[0].Name == name))
 }
 
+// fldOwner: the struct (value or address) whose field t reads.
+func fldOwner(t *Term) *Term {
+	if t.Op == "init" && len(t.Args) == 1 && t.Args[0].Op == "fa" && len(t.Args[0].Args) == 1 {
+		return t.Args[0].Args[0]
+	}
+	return t.Args[0]
+}
+
 // ruleUpstreamCtor: NewUpstreamServer registers servers marked backup as backups
 // and only those, with their own address; policy and ping come from the option;
 // a health check runs before the pool is returned and periodically after.
@@ -38,7 +46,7 @@ func ruleUpstreamCtor(c *Ctx) {
 		for _, l := range pr.Conds {
 			if isFld(l.Atom, "Backup") {
 				v := l.Pol
-				backupOf[l.Atom.Args[0].Key()] = &v
+				backupOf[fldOwner(l.Atom).Key()] = &v
 			}
 		}
 		checkAt, goAt, retOK := -1, -1, false
@@ -57,7 +65,7 @@ func ruleUpstreamCtor(c *Ctx) {
 						wiring = append(wiring, "the address registered is "+prettyTerm(addr)+" on "+where)
 						continue
 					}
-					srv := addr.Args[0]
+					srv := fldOwner(addr)
 					b := backupOf[srv.Key()]
 					if b == nil {
 						wiring = append(wiring, "a server is registered without its own backup flag being consulted on "+where)
@@ -507,16 +515,8 @@ func ruleServersReset(c *Ctx) {
 					}
 				default:
 					// go func() { s.Close() }()
-					if e.Kind == "go" && e.Callee.Parent() == fn {
-						for _, b := range e.Callee.Blocks {
-							for _, in := range b.Instrs {
-								if ci, ok := in.(ssa.CallInstruction); ok {
-									if sc := ci.Common().StaticCallee(); sc != nil && sc.Name() == "Close" && inPkg(sc, "server") {
-										sawClose = true
-									}
-								}
-							}
-						}
+					if closeFn := c.P.Method("server", "server", "Close"); e.Kind == "go" && closeFn != nil && callsFunc(e.Callee, closeFn, 2) {
+						sawClose = true
 					}
 				case "Update":
 					sawUpdate = true
